@@ -194,6 +194,14 @@ def principal_angle_deg(stem, C, S, by_construction=False):
     return th
 
 
+def reciprocal_lengths(c):
+    """a*, b*, c* in closed form"""
+    a, b, cc = c[0], c[1], c[2]
+    sa, sb, sg = sind(c[3]), sind(c[4]), sind(c[5])
+    V = Vspec(c)
+    return [b * cc * sa / V, a * cc * sb / V, a * b * sg / V]
+
+
 def cell_invert_spec(c):
     """reciprocal cell in closed form"""
     a, b, cc = c[0], c[1], c[2]
